@@ -375,3 +375,14 @@ V("c18-msg-percent-tuple-silent", "C18", VA, "        raise ValidationError(f\"V
 V("c18-refcount-truthiness", "C18", HX, "        if ref_count is None:\n            if prune:", "        if not ref_count:\n            if prune:", rule="VAL3")
 V("c18-refcount-isnot-silent", "C18", HX, "        if ref_count is None:\n            if prune:\n                self._ref_count = defaultdict(int)\n            else:\n                self._ref_count = None\n        else:\n            if prune:",
   "        if ref_count is None:\n            if not prune:\n                self._ref_count = None\n            else:\n                self._ref_count = defaultdict(int)\n        else:\n            if prune:", expect="silent")
+# --- EXCACC / PRUNESTATE / tables (mutant survey, round-3 seed C07-r3-2) --------
+V("c07-accessor-swapped", "C07", EX, "    def root_hash(self) -> HexBytes:\n        return self.args[1]", "    def root_hash(self) -> HexBytes:\n        return self.args[2]", rule="EXCACC")
+V("c06-init-count-table-swapped", "C06", HX, "            if prune:\n                self._ref_count = defaultdict(int)\n            else:\n                self._ref_count = None", "            if not prune:\n                self._ref_count = defaultdict(int)\n            else:\n                self._ref_count = None", rule="PRUNESTATE")
+V("c06-keep-zero-counts", "C06", HX, "            if new_count == 0:\n                # This is an optimization, to reduce the size of the _ref_count dict\n                del self._ref_count[key]", "            if new_count != 0:\n                # This is an optimization, to reduce the size of the _ref_count dict\n                del self._ref_count[key]", rule="PRUNESTATE")
+V("c06-session-always-refused", "C06", HX, "            if self._pending_prune_keys is None:\n                self._pending_prune_keys = defaultdict(int)", "            if self._pending_prune_keys is not None:\n                self._pending_prune_keys = defaultdict(int)", rule="PRUNESTATE")
+V("c01-persist-no-write", "C01", HX, "        if value is not None:\n            self._set_db_value(key, value)\n        return key", "        return key", rule="HEXTAB")
+V("c01-normalise-key-order", "C01", HX, "                        [sub_node_idx],\n                        decode_nibbles(sub_node[0]),", "                        decode_nibbles(sub_node[0]),\n                        [sub_node_idx],", rule="HEXTAB")
+V("c12-split-noop-negated", "C12", BN, "            if not value or if_delete_subtrie:\n                return node_hash", "            if value or if_delete_subtrie:\n                return node_hash", rule="SPLIT")
+V("c12-collapse-bit-swapped", "C12", BN, "first_bit = BYTE_1 if new_right_child != BLANK_HASH else BYTE_0", "first_bit = BYTE_0 if new_right_child != BLANK_HASH else BYTE_1", rule="BRTAB")
+V("c12-get-args-swapped", "C12", BN, "return self._get(self.root_hash, encode_to_bin(key))", "return self._get(encode_to_bin(key), self.root_hash)", rule="ROUTE2")
+V("c01-set-args-crossed", "C01", HX, "            return self._set_kv_node(node, trie_key, value)", "            return self._set_kv_node(node, value, trie_key)", rule="ARGX")
